@@ -247,7 +247,9 @@ def userCands (r0 : RSt) (ev : Event) : List Cand :=
       match pcNow with
       | some (.idle) | some (.done _) =>
           -- yields that are not io (park, sleep, channel of the proxy coroutine) also look at the cancel data
-          if (ev.obj == cstObj && ev.op == "load") || (ev.obj == cioObj && ev.op == "opt.take") then skipCand r0 ev "non-io-yield" else []
+          -- (`fetch_add 2` / `fetch_sub 2` = disable_cancel / enable_cancel around the wait in `Park::drop`)
+          if (ev.obj == cstObj && (ev.op == "load" || ev.op == "fetch_add" || ev.op == "fetch_sub"))
+              || (ev.obj == cioObj && ev.op == "opt.take") then skipCand r0 ev "non-io-yield" else []
       | some (.sys ..) | some (.dur _) | none => []
       | some (.pre _) => if st.isCo c then offer r pre (.u c) .go else []
       | some _ => offer r pre (.u c) .go
@@ -308,7 +310,16 @@ def tailCands (r : RSt) (ev : Event) : List Cand :=
 def isBornSock (ev : Event) : Bool :=
   ev.kind == "note" && ev.op == "born" && (match ev.a1 with | .id s => s.startsWith "EventData" | _ => false)
 
+/-- `cancel.state` also counts `disable_cancel()` in steps of 2 (`Park::drop` of a proxy coroutine's channel wait can overlap
+    the tail of its previous io subscription); `is_canceled()` is `state == 1`. The model only has the cancel bit: with the bit
+    clear every even value is "not cancelled". -/
+def evenCst (ev : Event) (cs : List Cand) : List Cand :=
+  if ev.obj == cstObj && ev.op == "load" && numOf ev.res ≥ 2 && numOf ev.res % 2 == 0 then
+    cs.map fun (l, x, nm) => if l.obj == cstObj && l.op == "load" && l.res == .num 0 then ({ l with res := .any }, x, nm) else (l, x, nm)
+  else cs
+
 def cands (r : RSt) (_t : Nat) (ev : Event) : List Cand :=
+  evenCst ev <|
   if isBornSock ev then [({ kind := "note", op := "born" }, { r with bornSeen := true }, "born")]
   else if ev.kind == "ret" then
     let (r1, c) := callerOf r ev.actor
